@@ -460,6 +460,13 @@ func (res *SeqResult) compareInstances(a, b *World, sc *SeqScenario) {
 				diff = "visited set"
 			}
 		}
+		if diff == "" && sc.CBKind == 4 {
+			// what observer callbacks saw from inside the call, as a multiset
+			na, nb := nestedWithin(a, x), nestedWithin(b, y)
+			if !sameStrings(na, nb) {
+				diff = fmt.Sprintf("what the callbacks observed (%v vs %v)", na, nb)
+			}
+		}
 		if diff == "" {
 			// reports fired inside the call, as a multiset
 			pa, pb := reportsWithin(a, x), reportsWithin(b, y)
@@ -472,6 +479,29 @@ func (res *SeqResult) compareInstances(a, b *World, sc *SeqScenario) {
 			return
 		}
 	}
+}
+
+func nestedWithin(w *World, r *Rec) []string {
+	var out []string
+	for _, q := range w.recs {
+		if q.Nested && q.Call > r.Call && q.Ret != 0 && q.Ret < r.Ret {
+			out = append(out, fmt.Sprintf("%s(k%d)->(v%d,%v,n=%d)", q.Op.K, q.Op.Key, q.Val, q.Ok, q.N))
+		}
+	}
+	sort.Strings(out)
+	return out
+}
+
+func sameStrings(a, b []string) bool {
+	if len(a) != len(b) {
+		return false
+	}
+	for i := range a {
+		if a[i] != b[i] {
+			return false
+		}
+	}
+	return true
 }
 
 func topLevel(recs []*Rec) []*Rec {
